@@ -110,6 +110,7 @@ func TestVerif_C10_Builds(t *testing.T) {
 				c.Docs[i].Syms, c.Docs[i].SymKinds = nil, nil
 			}
 		}
+		c.DedupDocs()
 		// non-ASCII trigrams only in some documents (map-backed postings kept across builder resets)
 		tr.Emit(c.Event())
 		g := &corpus.QGen{Rng: rng, C: c, Dir: true}
